@@ -126,6 +126,35 @@ def g_program(rng, maxops=8, templates=True, arrays=True):
                 kw[rng.choice(KWS)] = g_value(rng, names, arrays, lists=True)
             kwargs = [[k, v] for k, v in kw.items()]
         spec["ops"].append({"op": rng.choice(GATES), "args": args, "kwargs": kwargs, "modes": modes})
+    if arrays and rng.random() < 0.2:
+        # array twins (seeded C09/k, C01/k: declarations shared between arrays that agree in bytes but not in
+        # element type, or in data but not in shape): a second array related to one the program already has
+        have = [v for o in spec["ops"] for v in (o["args"] or []) if v[0] == "array"]
+        if have and rng.random() < 0.7:
+            _, dt, r, c, data, lay = rng.choice(have)
+        else:
+            dt, r, c, lay = "float", rng.randrange(1, 4), rng.randrange(1, 4), "C"
+            data = [fbits(rng.choice([0.0, 0.0, 1.0, 5e-324]))] * (r * c)
+            spec["ops"].append({"op": rng.choice(GATES), "args": [["array", dt, r, c, data, lay]], "kwargs": [],
+                                "modes": [["int", 0]]})
+        kind = rng.choice(["reshape", "dtype", "dtype", "copy"])
+        if kind == "reshape":
+            twin = ["array", dt, c, r, data, "C"]
+        elif kind == "copy" or dt == "complex":
+            twin = ["array", dt, r, c, list(data), "C"]
+        elif dt == "float":
+            # the int64 array with the same bytes (0.0 -> 0, 5e-324 -> 1, 1.0 -> 4607182418800017408)
+            ib = [int(h, 16) for h in data]
+            twin = ["array", "int", r, c, [b - (1 << 64) if b >= (1 << 63) else b for b in ib], "C"]
+        else:
+            # the float64 array with the same bytes, when all of them are finite
+            bits = [x & ((1 << 64) - 1) for x in data]
+            if all(((b >> 52) & 0x7FF) != 0x7FF for b in bits):
+                twin = ["array", "float", r, c, ["%016x" % b for b in bits], "C"]
+            else:
+                twin = ["array", dt, r, c, list(data), "C"]
+        spec["ops"].insert(rng.randrange(len(spec["ops"]) + 1),
+                           {"op": rng.choice(GATES), "args": [twin], "kwargs": [], "modes": [["int", 1]]})
     used = set()
     for o in spec["ops"]:
         for v in (o["args"] or []) + [v for _, v in (o["kwargs"] or [])]:
